@@ -51,6 +51,10 @@ type mflow struct {
 	held     bool
 	active   int
 	inactive int
+	// rearmed: the flow was just exported on active expiry. The statement says the active deadline is re-armed,
+	// not to which instant: now + timeout, or the next point of a fixed grid (creation + k * timeout) are both
+	// re-armings. The model takes over what it reads back if it lies in (now, now + timeout].
+	rearmed bool
 }
 
 func minI(a, b int) int {
@@ -138,6 +142,12 @@ func (w *world) invariants(after string, adopt bool) bool {
 			return w.fail("flow-should-be-gone", fmt.Sprintf("after %s: flow %d is still held; the model removed it (inactive expiry)", after, ki))
 		}
 		av, iv := toV(f.Active), toV(f.Inactive)
+		if w.m[ki].rearmed {
+			w.m[ki].rearmed = false
+			if av > w.now && av <= w.now+A {
+				w.m[ki].active = av
+			}
+		}
 		if adopt {
 			w.m[ki].active, w.m[ki].inactive = av, iv
 		} else if av != w.m[ki].active || iv != w.m[ki].inactive {
@@ -275,6 +285,7 @@ func (w *world) step(o op) bool {
 				*mf = mflow{}
 			} else {
 				mf.active = w.now + A
+				mf.rearmed = true
 			}
 		}
 		if len(failedKeys) > 0 {
